@@ -1175,12 +1175,24 @@ fn next_backup(src: &Src) -> R<String> {
     let (_, block) = find_fn(src, "next_backup_num")?;
     let n = block.stmts.len();
     let tail = match &block.stmts[n - 1] { Stmt::Expr(e, None) => e, _ => return Err("next_backup_num: no tail".into()) };
-    let mut tr = Tr::new();
-    let v = tr.expr(tail)?;
-    for f in &tr.free { if f != "current" { return Err(format!("next_backup_num: unexpected variable {}", f)); } }
+    // tail: `current.checked_add(<lit>).ok_or_else(|| <error>)` — the successor, an ERROR when it does not fit in a u64 — or
+    // the unchecked `Ok(current + <lit>)` (which wraps in a release build)
+    let tt = quote::ToTokens::to_token_stream(tail).to_string().replace(' ', "");
+    let (v, checked) = if let Some(rest) = tt.strip_prefix("current.checked_add(") {
+        let (lit, after) = rest.split_once(')').ok_or("next_backup_num: checked_add shape")?;
+        if !lit.chars().all(|c| c.is_ascii_digit()) || !(after.starts_with(".ok_or_else(") || after.starts_with(".ok_or(")) || !after.contains("XcpError::") {
+            return Err(format!("next_backup_num: unexpected tail {}", tt));
+        }
+        (format!("(current + {})", lit), true)
+    } else {
+        let mut tr = Tr::new();
+        let v = tr.expr(tail)?;
+        for f in &tr.free { if f != "current" { return Err(format!("next_backup_num: unexpected variable {}", f)); } }
+        (v, false)
+    };
     let (dflt, l2) = method_literal(src, "next_backup_num", "unwrap_or")?;
-    Ok(format!("(* {}:{}  next_backup_num: the number chosen from the largest existing one; {}:{} the default when there is none *)\nDefinition x_next_backup_from_max (current : N) : N :=\n  {}.\nDefinition x_backup_max_default : N := {}.\n",
-               src.path, tail.span().start().line, src.path, l2, v, dflt))
+    Ok(format!("(* {}:{}  next_backup_num: the number chosen from the largest existing one (checked: an error, not a wrap-around, when it does not fit in a u64); {}:{} the default when there is none *)\nDefinition x_next_backup_from_max (current : N) : N :=\n  {}.\nDefinition x_next_backup_checked : bool := {}.\nDefinition x_backup_max_default : N := {}.\n",
+               src.path, tail.span().start().line, src.path, l2, v, checked, dflt))
 }
 
 fn str_const(src: &Src, name: &str) -> R<(String, usize)> {
